@@ -1,4 +1,5 @@
 import ExprModel.Proofs.CheckerSpec
+import ExprModel.Proofs.SoundFrag
 /-
 C03 — Static typing is sound and rejects ill-typed expressions.
 
@@ -15,9 +16,10 @@ documented rule set.  The code as it is (`TDefects.asIs`) deviates from the docu
 places (literal retyping to any parameter type, loose index rule, `filter`/`map` result type): witnesses
 below, harness keys `c03:…`.
 
-Soundness half.  The evaluator (Spec) is being built in `Spec/Eval.lean` by the coordinator; here the
-statement is given against an abstract evaluator (`check_sound_goal`), together with what can be said at
-the level of types (`as_kind_exact`, `accepted_type_is_synth`).
+Soundness half.  The full statement is given against an abstract evaluator (`check_sound_goal`); against
+the reference evaluator `Spec.eval` it is proved for the scalar fragment (`check_sound_partial`,
+`as_kind_exact_partial`; helper file `Proofs/SoundFrag.lean`), together with what can be said at the level
+of types for all expressions (`as_kind_exact`, `accepted_type_is_synth`).
 -/
 namespace ExprModel.C03
 open ExprModel
@@ -264,6 +266,51 @@ theorem accepted_type_errors_witness :
     (check (cfgWith .asIs) exprMapKey).errClass = some .badMapKey := by
   decide +kernel
 
+/-- `Fs2(+I)` where `Fs2 func(float64) float64`-like parameter: here `Ff64(+I)` with an `int` operand -/
+def envTy2 : Ty := .named "main.E2" []
+  (.struct [fld "Ff" (.func [.num .float64] false [.num .float64]), fld "I" tInt])
+
+def cfgWith2 (dt : TDefects) : CheckCfg :=
+  { types := createTypesTable .asIs id { ty := some envTy2 }, strict := true, dt := dt }
+
+/-- `Ff(+I)` -/
+def exprFfPlusI : Node := .func {} "Ff" [.unary {} "+" (ident "I")] false
+
+/-- `c03:ill-typed-accepted:retyped-non-literal-argument` (known): an argument that is a unary `+ -` or
+a `+ - * /` expression takes the parameter's type even when it contains no integer literal at all:
+`Ff(+I)` with `I int`, `Ff func(float64) float64` is accepted (type float64); at run time the `int`
+reaches `reflect.Call` ("Call using int as type float64").  The documented rule retypes integer
+*literals*. -/
+theorem retype_non_literal_witness :
+    (check (cfgWith2 .asIs) exprFfPlusI).okType = some (some (.num .float64)) ∧
+    ¬ WellTyped (cfgWith2 .asIs) exprFfPlusI ∧
+    (check (cfgWith2 .repaired) exprFfPlusI).errClass = some .badArgument := by
+  decide +kernel
+
+/-- `Any * 1` in `struct { Any interface{} }` -/
+def envTy3 : Ty := .named "main.E3" [] (.struct [fld "Any" interfaceType, fld "I" tInt])
+
+def cfgWith3 (dt : TDefects) : CheckCfg :=
+  { types := createTypesTable .asIs id { ty := some envTy3 }, strict := true, dt := dt }
+
+def exprAnyTimes1 : Node := .binary {} "*" (ident "Any") (.int {} 1)
+
+/-- `c03:dynamic-type-differs:arith-with-interface-operand` (known; pinned by /repo's tests): `Any * 1` with
+`Any interface{}` is reported as `int` — `combined` gives `interface{}` weight 0 — although the value may be
+a float64; under the documented rule set the result type is `interface{}`. -/
+theorem combined_iface_witness :
+    (check (cfgWith3 .asIs) exprAnyTimes1).okType = some (some tInt) ∧
+    (check (cfgWith3 .repaired) exprAnyTimes1).okType = some ifaceTy ∧
+    ¬ Static (cfgWith3 .asIs) exprAnyTimes1 := by
+  decide +kernel
+
+/-- `c ? 1 : Any` (fixed by 390c455): at the snapshot the type of a conditional whose first branch is
+assignable to the second was the first branch's type. -/
+theorem cond_type_witness :
+    (check (cfgWith3 .asWas) (.cond {} (.bool {} true) (.int {} 1) (ident "Any"))).okType = some (some tInt) ∧
+    (check (cfgWith3 .asIs) (.cond {} (.bool {} true) (.int {} 1) (ident "Any"))).okType = some ifaceTy := by
+  decide +kernel
+
 /-- the full rejection statement for the code's own flags … -/
 def check_rejects_goal (dt : TDefects) : Prop :=
   ∀ (cfg : CheckCfg) (n : Node), cfg.dt = dt → ¬ WellTyped cfg n → ∀ n' τ, check cfg n ≠ .ok n' τ
@@ -317,10 +364,93 @@ def check_sound_goal (E : Evaluator) : Prop :=
     | .ok v => E.hasType v τ
     | .error e => E.valueDependent e
 
--- the hypotheses of `check_rejects` / `check_accepts` are satisfiable and not vacuous
+/-! ### soundness proved: the scalar fragment, against the reference evaluator `Spec.eval`
+
+`inFrag`: literals, identifiers, `not ! - +`, `and or && ||`, `== != < > <= >=`, `+ - * / %`,
+`contains startsWith endsWith`, the conditional.  `scalarTyped`: every sub-expression has a scalar static
+type (bool, string, one of the twelve numeric kinds) — the fragment's form of "all its operands are
+statically typed".  `EnvConforms`: the environment value holds, under every name the checker types as a
+scalar, a value of that type. -/
+
+/-- **Soundness on the scalar fragment** (`check_sound_goal` restricted to `inFrag`): if `Check` accepts
+`n` with type `τ`, then evaluating the tree *as the checker annotated it* (`n'`: node types, retyped
+literals) with the reference evaluator yields a value of type `τ`, or fails with a division by zero —
+never with a type error, whatever the environment's values. -/
+theorem check_sound_partial (cfg : CheckCfg) (c : Spec.SCfg) (henv : EnvConforms cfg c.env)
+    (n n' : Node) (τ : OTy) (hfrag : inFrag n = true) (hstatic : scalarTyped cfg [] n = true)
+    (h : check cfg n = .ok n' τ) (ctx : Spec.Ctx) (s : Spec.SState) :
+    match (Spec.eval c ctx n' s).1 with
+    | .ok v => ValOfK v τ.kind
+    | .error e => e = .divzero := by
+  have hs := accepted_type_is_synth cfg n n' τ h
+  obtain ⟨hn', _, _, _⟩ := (check_ok_iff cfg n n' τ).1 h
+  obtain ⟨_, _, hev⟩ := frag_sound (E := fun e => e = .divzero) (P := fun _ => True) rfl cfg [] c henv n hfrag hstatic τ hs (by have := scalarTyped_self cfg [] n hstatic; rw [hs] at this; exact this) {} rfl
+  rw [hn'] at hev
+  exact hev ctx trivial s
+
+/-- … and under `AsInt64` / `AsFloat64` the run's result is exactly an `int64` / a `float64`
+(`Spec.run` applies the conversion the compiler appends), under `AsBool` exactly a `bool`. -/
+theorem as_kind_exact_partial (cfg : CheckCfg) (c : Spec.SCfg) (henv : EnvConforms cfg c.env)
+    (n n' : Node) (τ : OTy) (hfrag : inFrag n = true) (hstatic : scalarTyped cfg [] n = true)
+    (h : check cfg n = .ok n' τ) :
+    (cfg.expect = .bool → match (Spec.run c none n').1 with
+      | .ok v => ∃ b, v = .bool b | .error e => e = .divzero) ∧
+    (cfg.expect = .int64 → match (Spec.run c (some 0) n').1 with
+      | .ok v => ∃ x, v = .int .int64 x | .error e => e = .divzero) ∧
+    (cfg.expect = .float64 → match (Spec.run c (some 1) n').1 with
+      | .ok v => ∃ x, v = .f64 x | .error e => e = .divzero) := by
+  have hev := check_sound_partial cfg c henv n n' τ hfrag hstatic h [] {}
+  have hk := as_kind_exact cfg n n' τ h
+  have hτs : ScalarT τ := by
+    have := scalarTyped_self cfg [] n hstatic
+    rw [accepted_type_is_synth cfg n n' τ h] at this
+    exact this
+  refine ⟨?_, ?_, ?_⟩
+  · intro he
+    have hb := hk.1 he
+    unfold Spec.run
+    rcases hr : Spec.eval c [] n' {} with ⟨r, s'⟩
+    rw [hr] at hev
+    cases r with
+    | error e => exact hev
+    | ok v => simp only [] at hev ⊢; rw [hb] at hev; exact hev
+  · intro he
+    obtain ⟨k, hkk⟩ := (isNumberT_scalar hτs).1 (hk.2 (Or.inl he))
+    unfold Spec.run
+    rcases hr : Spec.eval c [] n' {} with ⟨r, s'⟩
+    rw [hr] at hev
+    cases r with
+    | error e => exact hev
+    | ok v =>
+      simp only [] at hev ⊢
+      rw [hkk] at hev
+      have hv : NumOf v k := hev
+      have hc := conv_num .int64 hv
+      obtain ⟨x, hx⟩ := hc
+      simp only [castV, numOf_kind hv, hx]
+      exact ⟨x, rfl⟩
+  · intro he
+    obtain ⟨k, hkk⟩ := (isNumberT_scalar hτs).1 (hk.2 (Or.inr he))
+    unfold Spec.run
+    rcases hr : Spec.eval c [] n' {} with ⟨r, s'⟩
+    rw [hr] at hev
+    cases r with
+    | error e => exact hev
+    | ok v =>
+      simp only [] at hev ⊢
+      rw [hkk] at hev
+      have hv : NumOf v k := hev
+      have hc := conv_num .float64 hv
+      obtain ⟨x, hx⟩ := hc
+      simp only [castV, toFloat64Val, numOf_kind hv, hx]
+      exact ⟨x, rfl⟩
+
+-- the hypotheses are satisfiable and not vacuous
 example : WellTyped (cfgWith .repaired) (.binary {} "+" (ident "I") (.int {} 2)) ∧
     ¬ WellTyped (cfgWith .repaired) (.binary {} "+" (ident "I") (.str {} "a")) ∧
-    Static (cfgWith .repaired) (.binary {} "+" (ident "I") (.int {} 2)) := by
+    Static (cfgWith .repaired) (.binary {} "+" (ident "I") (.int {} 2)) ∧
+    inFrag (.binary {} "+" (ident "I") (.int {} 2)) = true ∧
+    scalarTyped (cfgWith .asIs) [] (.binary {} "+" (ident "I") (.int {} 2)) = true := by
   decide +kernel
 
 end ExprModel.C03
